@@ -69,14 +69,28 @@ def listOutsOf (fs : FS) (cwd : CPath) : List ScanEvent → List Out
 
 /-! ### trash-restore -/
 
+/-- the strings `os.makedirs(name)` may hand to `mkdir`: `name`, its head (`posixpath.split`), the
+    head of that, … (as long as head and tail are both non-empty) -/
+def makedirsHeads : Nat → Bytes → List Bytes
+  | 0, name => [name]
+  | fuel+1, name =>
+    if (makedirsSplit name).1 ≠ [] ∧ (makedirsSplit name).2 ≠ [] then name :: makedirsHeads fuel (makedirsSplit name).1
+    else [name]
+
 /-- Geometry of one restorable entry in the state `x`, relative to the subtree `r`: the directory
     `fs.mkdirs` would create (`realpath` of the parent of the original location), the destination,
     the payload and the info file — each as the path string resolves in `x` — are apart from `r`;
     and (`into`) when the destination — as resolved in any of the states `S` of the run — is a
     directory or a link to one in `x`, where that leads is apart from `r` (`shutil.move` then moves
-    INTO that directory). -/
+    INTO that directory).
+    `parentHeads`: when the parent string has a `.` or `..` component, `os.makedirs` works on the
+    string as spelled and may make a directory at each of its heads before the `..` takes effect
+    (`x/gone/..` makes `x/gone`): none of them, as it resolves in `x`, lies in `r`.  (Vacuous for
+    strings without such a component, where `parent` says it all.) -/
 structure EntryApart (S : List FS) (x : FS) (cwd r : CPath) (e : Entry) : Prop where
   parent : ¬ FS.under r (dirC x cwd (dirname e.loc)) = true
+  parentHeads : hasDotComp (dirname e.loc) = true →
+    ∀ q ∈ makedirsHeads (dirname e.loc).length (dirname e.loc), ∀ p, FS.resolve x cwd q = .ok p → ¬ FS.under r p = true
   dest : ∀ d, FS.resolve x cwd e.loc = .ok d → Apart r d
   into : ∀ x' ∈ S, ∀ d, FS.resolve x' cwd e.loc = .ok d → ∀ q, followC x d = some q → Apart r q
   payload : ∀ p, FS.resolve x cwd (pathOfBackupCopy e.info) = .ok p → Apart r p
